@@ -35,8 +35,18 @@ def strategy_case(draw):
     c = {"n": n, "w": w, "h": h, "dtype": draw(st.sampled_from(["float32", "int16"])), "seed": draw(st.integers(0, 2**31 - 1)),
          "in_order": draw(st.sampled_from(["xyz", "zyx"])), "out_order": draw(st.sampled_from(["xyz", "zyx"])),
          "input": draw(st.sampled_from(["array", "array", "file"])), "write": draw(st.booleans()),
-         "op": draw(st.sampled_from(["sort", "remove", "evenodd", "flip", "crop", "bin"]))}
+         "op": draw(st.sampled_from(["sort", "remove", "evenodd", "flip", "crop", "bin", "merge"]))}
     op = c["op"]
+    if op == "merge":
+        if n < 4:
+            c["n"] = n = draw(st.integers(4, 25))
+        # cut points of the stack into k >= 2 part files holding at least two tilts each; numbering plain or zero padded
+        k = draw(st.integers(2, n // 2))
+        sizes = [2] * k
+        for _ in range(n - 2 * k):
+            sizes[draw(st.integers(0, k - 1))] += 1
+        c["parts"] = sizes
+        c["pad"] = draw(st.sampled_from([0, 0, 3]))
     if op == "sort":
         vals = draw(st.lists(st.integers(-700, 700), min_size=n, max_size=n, unique=True))
         c["angles"] = [v / 10.0 for v in vals]
@@ -147,6 +157,20 @@ def run(case):
         compare(out, f["data"].transpose(2, 1, 0), exp, sig + ":file", tol)
         return f["data"].transpose(2, 1, 0)
 
+    if op == "merge":
+        # part files numbered 1..k (more than nine parts make the lexical and the numeric file order differ)
+        start = 0
+        for j, sz_ in enumerate(c["parts"]):
+            oracle.mrc_write(("part_%0" + str(c["pad"]) + "d.mrc") % (j + 1) if c["pad"] else f"part_{j + 1}.mrc", np.ascontiguousarray(I[start:start + sz_].transpose(2, 1, 0)))
+            start += sz_
+        out.label(f"parts:{'10+' if len(c['parts']) >= 10 else len(c['parts'])}", "padded" if c["pad"] else "unpadded")
+        out.nontrivial = (w != h) and len(c["parts"]) >= 3
+        ok, r = call(out, "merge", lambda: tiltstack.merge("part_*.mrc", output_file="merged.mrc" if c["write"] else None, output_order=c["out_order"]))
+        if ok:
+            compare(out, to_images(r, c["out_order"]), I, "merge")
+            if c["write"]:
+                check_file("merged.mrc", I, "merge")
+        return out
     if op == "evenodd":
         ok, r = call(out, "split_stack_even_odd", lambda: tiltstack.split_stack_even_odd(inp, output_file_prefix="eo" if c["write"] else None, **kw))
         if ok:
